@@ -71,6 +71,8 @@ def validate(ck, tp, classes, runs):
     if not r.ok:
         raise vlib.Inconclusive("client trace validation failed (%s):\n%s" % (r.violation, r.out[-3000:]))
     for v in r.printed:
+        if not v.get("bad"):
+            continue
         evs = [json.loads(x) for x in traces.get(v["tr"], [])]
         name = runs.get(str(v.get("run", 0)), "?")
         bad = v["bad"]
